@@ -50,6 +50,7 @@ RULES = [
     ('R3',  r"\(\s*('(?:\\u\{[0-9a-fA-F]+\}|\\.|[^'\\])')\s*\.\.=\s*('(?:\\u\{[0-9a-fA-F]+\}|\\.|[^'\\])')\s*\)\s*\.contains\(\s*&(\w+)\s*\)", r"vx_range_contains(\1, \2, true, &\3)", 'RangeInclusive<char>::contains'),
     ('R3',  r"\(\s*('(?:\\u\{[0-9a-fA-F]+\}|\\.|[^'\\])')\s*\.\.\s*('(?:\\u\{[0-9a-fA-F]+\}|\\.|[^'\\])')\s*\)\s*\.contains\(\s*&(\w+)\s*\)", r"vx_range_contains(\1, \2, false, &\3)", 'Range<char>::contains'),
     ('R8',  r"\b(\w+)\.escape_unicode\(\)\.to_string\(\)", r"vx_escape_unicode(\1)", 'char::escape_unicode rendering (uninterpreted)'),
+    ('R5',  r"\b(\w+)\.iter\(\)\.map\(\|it\| it\.chars\(\)\.count\(\)\)\.sum(?:::<usize>)?\(\)", r"vx_sum_char_counts(&\1)", 'iter().map(|it| it.chars().count()).sum(): the total number of code points of the strings (uninterpreted; not the number of strings)'),
     ('R5',  r"\b(\w+)\.chars\(\)\.count\(\)", r"vx_char_count(&\1)", 'str::chars().count() = number of scalar values'),
     ('R12', r"\b(\w+)\.contains\(('(?:\\u\{[0-9a-fA-F]+\}|\\.|[^'\\])')\)", r"vx_str_contains_char(\1, \2)", 'str::contains(char)'),
     ('R12', r"\b(\w+)\.ends_with\(('(?:\\u\{[0-9a-fA-F]+\}|\\.|[^'\\])')\)", r"vx_str_ends_with_char(\1, \2)", 'str::ends_with(char)'),
